@@ -16,6 +16,7 @@ EXPLANATION = (
     "invariant over histories; fairness.")
 ASSUMPTIONS = ["detail::condition_variable::wait/wait_until release and re-acquire the lock they are given (C02/C07)",
                "callers of the detail classes pass the lock that protects the semaphore (checked for the public wrappers in R6)"]
+THOROUGH_CONFIGS = [["-UNDEBUG", "-DPIKA_DEBUG"]]
 FLOORS = {"C08.R1": 14, "C08.R2": 3, "C08.R3": 2, "C08.R4": 6, "C08.R5": 4, "C08.R6": 10}
 
 CS = "pika::detail::counting_semaphore"
